@@ -291,6 +291,73 @@ class Evaluator:
     # (no further statement kinds are recognised)
 
 
+# ----------------------------------------------------------------------------------------------------------------
+# The same table by interpretation: MosCollection(readers, allow_incomplete=...) is run by the abstract interpreter on
+# one *exact* representative reader list per row (concrete class objects and ro ids, symbolic message objects), in two
+# orders.  Every operation on exact lists / class constants / small integers folds, so the outcome is definite.
+def interpreted_rows(prog: Program, rows):
+    from .domains import ClsV, Const, ExtV, ListE, ObjE, Ref, TupleV
+    from .harness import base_state
+    from .interp import Raise
+    from .rules_coll import CollectionFlow
+
+    class ValidateFlow(CollectionFlow):
+        def opaque_ext(self, name, args, kwargs, st, node):
+            if name == 'symbolic-restore':
+                sym = st.new(ObjE(self.prog.cls('MosFile').qualname, (('%src', args[0] if args else Const('?')), ('%symbolic', Const(True)))))
+                return [(Ref('obj', sym), st)]
+            return super().opaque_ext(name, args, kwargs, st, node)
+
+    reader_cls = prog.cls('MosReader')
+    coll_cls = prog.cls('MosCollection')
+    q = {n: prog.cls(n).qualname for n in ('RunningOrder', 'RunningOrderEnd', 'StorySend')}
+    subs = [c for c in prog.subclasses(prog.cls('RunningOrder')) if c.name != 'RunningOrder']
+    out = {}
+    for row in rows:
+        empty, same_id, nc, nd, allow, nsub = row
+        kinds = [] if empty else (['other'] + ['create'] * nc + ['sub'] * nsub + ['delete'] * nd)
+        if not same_id and len(kinds) < 2:
+            continue
+        results = []
+        for order in ('forward', 'reversed'):
+            seq = kinds if order == 'forward' else kinds[::-1]
+            eng = ValidateFlow(prog, True)
+            eng.entry = f'MosCollection({row}, {order})'
+            st = base_state(eng)
+            items, create_src = [], []
+            for i, k in enumerate(seq):
+                cls_q = {'other': q['StorySend'], 'create': q['RunningOrder'], 'delete': q['RunningOrderEnd'],
+                         'sub': subs[0].qualname if subs else q['RunningOrder']}[k]
+                rid = 'RO-A' if (same_id or i != len(seq) - 1) else 'RO-B'
+                fields = {'_message_id': Const(i + 1), '_ro_id': Const(rid), '_mos_type': ClsV(cls_q),
+                          '_restore_fn': ExtV('symbolic-restore'), '_restore_args': TupleV((Const(f'src{i}'),))}
+                sym = st.new(ObjE(reader_cls.qualname, tuple(sorted(fields.items()))))
+                items.append(Ref('obj', sym))
+                if k == 'create':
+                    create_src.append(f'src{i}')
+            lst = st.new(ListE('lit', len(items), len(items), items=tuple(items)))
+            got = set()
+            post = None
+            for v, s in eng.instantiate(ClsV(coll_cls.qualname), [Ref('list', lst)], {'allow_incomplete': Const(allow)}, st, None):
+                if isinstance(v, Raise):
+                    got.add('reject:' + v.exc.cls)
+                    continue
+                got.add('accept')
+                obj = s.get(v.sym)
+                ro = obj.get('_ro')
+                ro_src = s.get(ro.sym).get('%src') if isinstance(ro, Ref) and ro.kind == 'obj' else None
+                rest = obj.get('_mos_readers')
+                rest_items = None
+                if isinstance(rest, Ref) and rest.kind == 'list':
+                    le = s.get(rest.sym)
+                    rest_items = (le.kind, tuple(x.sym if isinstance(x, Ref) else repr(x) for x in le.items), le.ordered)
+                want_rest = tuple(x.sym for x, k in zip(items, seq) if k != 'create')
+                post = {'ro_src': getattr(ro_src, 'v', None), 'create_src': create_src, 'rest': rest_items, 'want_rest': want_rest}
+            results.append((order, sorted(got), post))
+        out[row] = results
+    return out
+
+
 def accept_table(res: CheckResult, prog: Program):
     res.rules['ACCEPT-TABLE'] = ('the acceptance predicate of MosCollection._validate over (empty, same_id, n_create, n_delete, allow_incomplete) equals: '
                                  'non-empty and same_id and n_create = 1 and n_delete <= 1 and (allow_incomplete or n_delete = 1); every rejection is InvalidMosCollection')
@@ -316,6 +383,44 @@ def accept_table(res: CheckResult, prog: Program):
     Evaluator.prog = prog
     has_sub = bool(Evaluator(fi, (True, True, 0, 0, True)).strict_subclasses('RunningOrder'))
     rows = list(itertools.product([True, False], [True, False], [0, 1, 2, 3], [0, 1, 2, 3], [True, False], [0, 1] if has_sub else [0]))
+    rows = [r for r in rows if not (r[0] and (r[2] or r[3] or r[5] or not r[1]))]
+    try:
+        interp = interpreted_rows(prog, rows)
+        res.extra['accept_table_method'] = 'abstract interpretation of MosCollection.__init__/_validate on exact representative reader lists (two orders per row)'
+    except AnalysisError as e:
+        interp = None
+        res.extra['accept_table_method'] = f'pattern evaluator over the statements of _validate (interpretation not possible: {e})'
+    if interp is not None:
+        post_ok, post_detail, n_acc = True, '', 0
+        for row in rows:
+            if row not in interp:
+                continue
+            empty, same_id, nc, nd, allow, nsub = row
+            want = 'accept' if spec_accept(empty, same_id, nc, nd, allow) else 'reject:InvalidMosCollection'
+            label = f'empty={empty} same_id={same_id} roCreates={nc} roDeletes={nd} allow_incomplete={allow}' + (f' roReplaces={nsub}' if nsub else '')
+            bad = [(o, g) for o, g, _ in interp[row] if g != [want]]
+            res.add('ACCEPT-TABLE', fi.short, label, not bad,
+                    '' if not bad else f'the code gives {bad[0][1]} (readers in {bad[0][0]} order), the specification {want}', fi.file, fi.node.lineno)
+            for o, g, pst in interp[row]:
+                if g == ['accept'] and pst is not None:
+                    n_acc += 1
+                    if pst['ro_src'] is None or [pst['ro_src']] != pst['create_src']:
+                        post_ok, post_detail = False, f'self._ro is restored from {pst["ro_src"]}, the roCreate reader is {pst["create_src"]} ({label}, {o} order)'
+                    r = pst['rest']
+                    if r is None or r[1] != pst['want_rest'] or not r[2]:
+                        post_ok, post_detail = False, f'the remaining readers are not "all readers except the roCreate, in order" ({label}, {o} order)'
+        if not n_acc:
+            res.error('POST-STATE: no accepting row was found (idiom not recognised)')
+        ro_ok = post_ok or 'remaining' in post_detail
+        res.add('POST-STATE', fi.short, 'self._ro = <roCreate readers>[0].mos_object', ro_ok, '' if ro_ok else post_detail, fi.file, fi.node.lineno)
+        rem_ok = post_ok or 'remaining' not in post_detail
+        # list.remove() compares with ==: it removes the roCreate reader only while MosReader keeps identity equality
+        uses_remove = any(isinstance(c, ast.Call) and isinstance(c.func, ast.Attribute) and c.func.attr == 'remove' for c in ast.walk(fi.node))
+        eq = prog.cls('MosReader').find('__eq__')
+        if uses_remove and eq is not None:
+            rem_ok, post_detail = False, 'the roCreate reader is dropped with list.remove() while MosReader defines __eq__: another reader comparing equal is removed instead'
+        res.add('POST-STATE', fi.short, 'self._mos_readers = [mr for mr in self.mos_readers if mr.mos_type != RunningOrder]', rem_ok, '' if rem_ok else post_detail, fi.file, fi.node.lineno)
+        return
     for empty, same_id, nc, nd, allow, nsub in rows:
         if empty and (nc or nd or nsub or not same_id):
             continue
